@@ -475,7 +475,9 @@ PROPS["C06"] = {
 def c12_streams(tier, rng, ctx):
     """adversarial arguments into every method: empty, '~', '$', '//', long '..' chains, multi-byte, very long names"""
     adv = ["", "/", "//", ".", "..", "~", "~/", "~x", "$", "${", "$V", "${V}", "$NOPE", "a//b", "../../../..", "/" + "../" * 50, "é", "/é/語/😀", "ab//€€",
-           "/ab/cƒ//x", "a//b/😀/c", "file://", "FILE:///é", "http://x//y", "x" * 300, "/" + "/".join(["d"] * 60), "a\tb", "a:b", "/a/./b/../c/", "~/~"]
+           "/ab/cƒ//x", "a//b/😀/c", "file://", "FILE:///é", "http://x//y", "x" * 300, "/" + "/".join(["d"] * 60), "a\tb", "a:b", "/a/./b/../c/", "~/~",
+           # multi-byte characters right after the characters the expander slices at
+           "~é", "~日/x", "~😀", "~/é", "é~", "$é", "${é}", "$Vé", "${V}é", "~€/$V", "file:é", "é" * 100]
     calls1 = ["abs", "exists", "is_dir", "is_file", "is_symlink", "is_exec", "is_readonly", "mode", "owner", "uid", "gid", "set_cwd", "mkfile", "mkdir_p",
               "read_all", "read_lines", "remove", "remove_all", "readlink", "readlink_abs", "paths", "dirs", "files", "all_paths", "all_dirs", "all_files"]
     hs = []
@@ -551,7 +553,9 @@ def c20_streams(tier, rng, ctx):
             finals.append("macro:readlink:%s:%s" % (hx(p), hx(t)))
             finals.append("macro:readlink_abs:%s:%s" % (hx(p), hx(t)))
             finals.append("macro:symlink:%s:%s" % (hx(p), hx(t)))
-        for md in [0o755, 0o700, 0o40755, 0]:
+        # requested modes that differ from an existing directory's mode in the rwx bits, only in the setuid / setgid /
+        # sticky bits, only in the file-type bits, or not at all
+        for md in [0o755, 0o700, 0o40755, 0, 0o1755, 0o4755, 0o2700, 0o7777, 0o1700]:
             finals.append("macro:mkdir_m:%s::%d" % (hx(p), md))
     depth = 2 if tier == "quick" else 3
     hs, info = bfs_histories(ctx, tier, depth, 300 if tier == "quick" else 4000, muts=SETUP, finals=finals, mode="m", tag="c20")
@@ -582,7 +586,7 @@ def c10_cases(tier, rng):
     cases = []
     for ld in dirs:
         for td in dirs:
-            for tk in ["absent", "file", "dir", "link"]:
+            for tk in ["absent", "file", "dir", "link", "linkdir"]:
                 link = (ld.rstrip("/") + "/l")
                 target = (td.rstrip("/") + "/t") if tk != "dir" or td == "/" else td
                 if tk == "dir" and td == "/":
@@ -605,6 +609,8 @@ def c10_hist(link, target, tk, spelling):
         setup += [op("mkdir_p", target)]
     elif tk == "link":
         setup += [op("mkdir_p", posixpath.dirname(target)), op("mkfile", "/zz"), op("symlink", target, "/zz")]
+    elif tk == "linkdir":
+        setup += [op("mkdir_p", posixpath.dirname(target)), op("mkdir_p", "/zd"), op("symlink", target, "/zd")]
     tsp = target if spelling == "abs" else posixpath.relpath(target, ld)
     qs = [op("symlink", link, tsp), op("readlink_abs", link), op("readlink", link), op("is_symlink", link), op("is_file", link), op("is_dir", link),
           op("is_symlink_dir", link), op("is_symlink_file", link), op("readlink", target), op("readlink_abs", ld)]
@@ -642,6 +648,11 @@ def c10_pycheck(line, out):
     if op("mkdir_p", want_abs) in pre_ops and (r[6], r[7]) != ("b1", "b0"):
         return False
     if any(o.startswith("write_all:%s:" % hx(want_abs)) for o in pre_ops) and (r[6], r[7]) != ("b0", "b1"):
+        return False
+    # ... also when the target is itself a link: to a directory -> a directory link, to a file -> a file link
+    if op("symlink", want_abs, "/zd") in pre_ops and (r[6], r[7]) != ("b1", "b0"):
+        return False
+    if op("symlink", want_abs, "/zz") in pre_ops and (r[6], r[7]) != ("b0", "b1"):
         return False
     return True
 
